@@ -131,7 +131,7 @@ Proof.
   unfold str_query. cbn [top_cls]. cbn [rquery]. rewrite fix_rows. fold K.
   set (B := set_wn (kc K) false).
   rewrite (cols_part tbl cols B eq_refl K_q (plain_table_alias _ Ht)).
-  rewrite (rows_part (with_c K B) (set_subq (set_wa B true) true) rows K_sq Hl).
+  rewrite (rows_part (with_c K B) (set_subq (set_wa B false) true) rows K_sq Hl).
   rewrite (table_sql_plain B tbl Ht). change (q B) with (q (kc K)). rewrite K_q.
   destruct rows as [|r0 rs]; [congruence|]. cbn [map bind].
   unfold insert_text, values_text. rewrite !sapp_assoc. destruct repl; reflexivity.
@@ -263,7 +263,7 @@ Proof.
   unfold str_query. cbn [top_cls]. cbn [rquery]. rewrite fix_rows. fold K.
   set (B := set_wn (kc K) false).
   rewrite (cols_part tbl cols B eq_refl K_q (plain_table_alias _ Ht)).
-  assert (R : mapM (fun row : list item => match mapM (ritem (with_c K B) [] (set_subq (set_wa B true) true)) row with
+  assert (R : mapM (fun row : list item => match mapM (ritem (with_c K B) [] (set_subq (set_wa B false) true)) row with
                                            | Ok vs => Ok (join "," vs) | Err e => Err e end)
                    (map (map (fun x : cell => IT (snd x))) rows) = Ok (map (join ",") texts)).
   { clear Hne. revert texts Hv. induction rows as [|row rs IH]; intros texts Hv.
